@@ -130,11 +130,11 @@ func init() {
 				J("H_C20_mantexp", o, "fx", 1, "w", 1), J("H_C20_mantexp", o, "fx", 1, "w", 2), J("H_C20_mantexp", o, "fx", 0), J("H_C20_mantexp", o, "fx", 2),
 				J("H_C03_fma", o, "d", 0, "p", 19))
 			if tier == "thorough" {
-				jobs = append(jobs, J("H_C14_setint", o, "n", 2, "p", 0), J("H_C14_setint", o, "n", 2, "p", 20), J("H_C03_fma", o, "d", -19, "p", 38))
+				jobs = append(jobs, J("H_C14_setint", o, "n", 2, "p", 0), J("H_C14_setint", o, "n", 2, "p", 20))
 			}
 			return jobs
 		},
-		Bounds:      map[string]string{"quick": arithBounds["quick"] + " Plus setters: SetInt64/SetUint64/NewDecimal (all 64-bit arguments, NewDecimal exponent |e| < 2^40), SetInt of 0-1 binary words, SetMantExp/MantExp (1-2 words, every int64 exponent argument), FMA 1x1+1 words aligned.", "thorough": arithBounds["thorough"] + " Plus SetInt of 2 binary words, FMA with d=-19."},
+		Bounds:      map[string]string{"quick": arithBounds["quick"] + " Plus setters: SetInt64/SetUint64/NewDecimal (all 64-bit arguments, NewDecimal exponent |e| < 2^40), SetInt of 0-1 binary words, SetMantExp/MantExp (1-2 words, every int64 exponent argument), FMA 1x1+1 words aligned.", "thorough": arithBounds["thorough"] + " Plus SetInt of 2 binary words. (FMA with d=-19, p=38 ended with concretisations the solver could not bound - UNWIND - and is not registered.)"},
 		Outside:     append(arithOutside, "SetRat and base-10 Parse/SetString/UnmarshalText accuracy (Parse: see C12)", "FMA inputs inside the known finding KF-fma-product-range"),
 		Assumptions: []string{"operands satisfy Inv (A.1)", archNote, contractNote},
 		LevelText:   "Same symbolic runs as C01 with the accuracy obligations enabled: Acc() == sign(stored - exact), Exact iff nothing lost, including overflow to Inf and underflow to 0; plus the integer setters, SetMantExp and FMA.",
